@@ -19,6 +19,8 @@ KINDS = {
     'div': (False, None), 'section#s.k': (False, '#s.k'), 'span': (False, None), 'em{u v}': (False, None), 'p{t}': (False, None),
     '#i1': (False, '#i1'), '.c1': (False, '.c1'), 'br/': (True, None), 'img': (True, None), 'ul': (False, None),
     'span.c2{w}': (False, '.c2'), 'li': (False, None), 'p{l1\nl2}': (False, None),
+    # text-only nodes whose children are written in place of the first field (clause (i) only)
+    '{a ${0} b}': (False, None), '{[${0}${1:f}]}': (False, None),
 }
 XSL_KINDS = {
     'xsl:variable[name=n select=s]': (False, None), 'xsl:with-param[name=n select=s]': (False, None), 'var': (False, None),
@@ -161,7 +163,11 @@ def check(seq, labels, syntax, opts):
         bad.append((classify_content(base, got, opts), dict(abbr=abbr, options=ro, syntax=syntax, output=out[:300], baseline=base[:30], got=got[:30])))
         return abbr, bad
     tree = M.unroll(M.denote(seq, labels))
-    els = elements_preorder(tree)
+    els = [(k, c) for k, c in elements_preorder(tree)]
+    if any(k.startswith('{') for k, _ in els):
+        # text-only nodes are not elements: drop them from the element list used by (iii); clause (ii) is skipped below
+        if opts.get('comment', 'off') != 'off':
+            return abbr, bad
     # (iii) comments
     cm = opts.get('comment', 'off')
     comments = [i for i, e in enumerate(ev) if e[0] == 'comment']
@@ -194,7 +200,9 @@ def check(seq, labels, syntax, opts):
                         nxt = sig[idx + 1] if idx + 1 < len(sig) else None
                         if not nxt or nxt[0] != 'comment' or nxt[1].strip() != '<!-- /%s -->' % ALL[kind][1]:
                             bad.append(('comment:not-after-its-element', dict(abbr=abbr, element=kind, output=out[:300])))
-    # (ii) indentation
+    # (ii) indentation (not for abbreviations with text-only nodes: the rule speaks of elements)
+    if any(k.startswith('{') for k, _ in els):
+        return abbr, bad
     fmt = opts.get('output.format', True)
     skip = opts.get('output.formatSkip', ['html'])
     names_skipped = any(e[0] == 'o' and e[1].lower() in skip for e in ev)
